@@ -83,8 +83,13 @@ func scenarios(m *mon.M, r *rand.Rand) []scenario {
 				if s.contract {
 					s.deployAt = 8 + r.Intn(12)
 				}
-				s.shares = r.Intn(3)
-				s.crafted = s.shares > 0 && r.Intn(2) == 0
+				if !s.flip {
+					s.shares = r.Intn(3)
+					s.crafted = s.shares > 0 && r.Intn(2) == 0
+				} else if rep%4 == 3 {
+					// also exercise the listed failed-claim deletion together with a reorg (reported under its own signatures)
+					s.noRevert = false
+				}
 			}
 			out = append(out, s)
 		}
